@@ -102,8 +102,9 @@ def functions_encoded(parts, results):
     def prof(frame, event, arg):
         if event == "call":
             fn = frame.f_code.co_filename
-            if fn.startswith("/repo/src/"):
-                names.add("%s:%s" % (fn[len("/repo/src/"):], frame.f_code.co_qualname))
+            root = (os.environ.get("VERIF_REPO_SRC") or "/repo/src").rstrip("/") + "/"
+            if fn.startswith(root):
+                names.add("%s:%s" % (fn[len(root):], frame.f_code.co_qualname))
 
     for propname, (part, args) in seen_props.items():
         try:
